@@ -38,7 +38,13 @@ RULE_ADDED = (
               'Round 12: every member also under names that are nearly its own (other case, bla'
               "nks, a neighbour's name). "
               ' '
-              'Round 14: the device is of each of the three networks (by shard). ')
+              'Round 14: the device is of each of the three networks (by shard). '
+              ' '
+              'Round 15: a request turned down by the manager itself with a validation code aft'
+              "er the dialogue with the device had begun is not 'accepted or refused silently' "
+              'even where the documents leave acceptance open (six known findings of the parse-'
+              'late family, sub-classified so that a brother whose hash cannot be computed stay'
+              's a violation). ')
 RULE = RULE + " " + RULE_ADDED.strip()
 ASSUMPTIONS = [
     "the reference classifier (pv/oracle/docs_protocol.py) is a reading of docs/protocol.md and "
